@@ -18,17 +18,21 @@ PLAN = dict(
         "known finding C16 external-thread-in-extra-slot (task_arena(1, reserved>=1) admits a second external thread into the slot kept for the mandatory worker) is excluded "
         "from the default verdict and counted as n_excluded; the witness leg (`drive --witness`, kind ARENA-OVERSUBSCRIBED) reports it",
         "known finding C16 update-allotment assertion: with max_allowed_parallelism 1 the unchanged library trips `assigned == max_workers` in market::update_allotment "
-        "(debug builds); the assertion-enabled leg therefore draws 1 as 2 (--no-soft0, counted as n_excluded), the release leg keeps 1; witness leg `drive --witness2`"],
+        "(debug builds); the assertion-enabled leg therefore draws 1 as 2 (--no-soft0, counted as n_excluded), the release leg keeps 1; witness leg `drive --witness2`",
+        "every DEADLOCK / SPIN-FIXPOINT is a violation (a worker blocked in execute() on a full arena whose occupants left on recall was a genuine defect, repaired in "
+        "/repo 5444123; the directed leg `drive --witness3` keeps that shape covered"],
     floor=dict(quick=500, thorough=5000),
     tiers=dict(
         quick=[det("rel", H, "cs-rel", 16, 170, 4, tso=True, time_cap=20),
                det("dbg", H, "cs-dbg", 16, 60, 4, tso=True, time_cap=12, args=["--no-soft0"]),
                det("witness-oversubscribed", H, "cs-rel", 1, 10, 3, time_cap=15, args=["--witness"]),
-               det("witness-allotment-assert", H, "cs-dbg", 1, 15, 4, time_cap=20, args=["--witness2"])],
+               det("witness-allotment-assert", H, "cs-dbg", 1, 15, 4, time_cap=20, args=["--witness2"]),
+               det("directed-execute-wait", H, "cs-rel", 2, 30, 6, tso=True, time_cap=20, args=["--witness3"])],
         thorough=[det("rel", H, "cs-rel", 16, 2600, 5, tso=True, time_cap=280),
                   det("dbg", H, "cs-dbg", 16, 700, 5, tso=True, time_cap=130, args=["--no-soft0"]),
                   det("witness-oversubscribed", H, "cs-rel", 1, 10, 3, time_cap=15, args=["--witness"]),
                   det("witness-allotment-assert", H, "cs-dbg", 1, 15, 4, time_cap=20, args=["--witness2"]),
+                  det("directed-execute-wait", H, "cs-rel", 2, 30, 6, tso=True, time_cap=20, args=["--witness3"]),
                   det("enum-rmw", H, "cs-rel", 16, 25, 2, tso=True, time_cap=70, enum="rmw", enum_cap=150),
                   det("enum-wake", H, "cs-rel", 16, 25, 2, tso=True, time_cap=50, enum="wake", enum_cap=100)],
     ),
